@@ -698,6 +698,8 @@ impl SchemaWriteTransaction<'_> {
         ref_cache.commit();
         classes.commit();
         attributes.commit();
+        #[cfg(feature = "verif-hooks")]
+        crate::verif_hooks::c06::pause(crate::verif_hooks::c06::W_DINFO);
         Ok(())
     }
 
